@@ -69,7 +69,7 @@ impl Sim {
     }
 
     fn audit_quote(&mut self, ev: &Event, pair: usize, offer: &AssetRef, amounts: &[Uint128], cov: &mut Cover) -> StepOut {
-        let p = match self.model.pairs.get(pair) {
+        let p = match self.model.std_pair(pair) {
             Some(p) => p.clone(),
             None => return out("skip"),
         };
@@ -128,7 +128,7 @@ impl Sim {
     }
 
     fn audit_quote_then_swap(&mut self, ev: &Event, sender: &str, pair: usize, offer: &AssetAmt, cov: &mut Cover) -> StepOut {
-        let p = match self.model.pairs.get(pair) {
+        let p = match self.model.std_pair(pair) {
             Some(p) => p.clone(),
             None => return out("skip"),
         };
@@ -219,7 +219,7 @@ impl Sim {
     }
 
     fn audit_reverse(&mut self, ev: &Event, pair: usize, ask: &AssetAmt, cov: &mut Cover) -> StepOut {
-        let p = match self.model.pairs.get(pair) {
+        let p = match self.model.std_pair(pair) {
             Some(p) => p.clone(),
             None => return out("skip"),
         };
